@@ -159,7 +159,7 @@ fn soup_case(ch: &mut Choices<'_>, st: &mut Stats) -> CaseResult {
     check_input(scheme(), &s, st, "token-soup")
 }
 
-fn mutate(ch: &mut Choices<'_>, text: &str) -> String {
+pub fn mutate_text(ch: &mut Choices<'_>, text: &str) -> String {
     let mut chars: Vec<char> = text.chars().collect();
     let edits = ch.range(1, 4);
     for _ in 0..edits {
@@ -225,7 +225,7 @@ fn mutated_case(ch: &mut Choices<'_>, st: &mut Stats) -> CaseResult {
     let recipe = gen_.r.clone();
     let s = recipe.build();
     let ch = gen_.ch;
-    let m = mutate(ch, &text);
+    let m = mutate_text(ch, &text);
     check_input(&s, &m, st, "mutated-valid-filter").map_err(|mut f| {
         f.case = json!({"input": m, "original": text, "scheme": recipe.show()});
         f
